@@ -14,7 +14,7 @@ ordered gate list (`evalOrd`) started with `σ` restricted to the old inputs and
 All theorems are generic in the `Config` (all 8 option combinations) and in the fuel.
 Property theorems only; helper lemmas are in `Flussab/Proof/Aig*.lean`.
 -/
-import Flussab.Proof.AigComplete
+import Flussab.Proof.AigCount
 
 namespace Flussab.C12
 open Flussab Flussab.Aig
@@ -172,20 +172,94 @@ theorem renumberAig_terminates (cfg : Config) (a : Aig)
     (hg : ∀ r ∈ roots cfg a, Grounded a (r / 2)) : renumberAig cfg a ≠ .outOfFuel :=
   renumber_fuel hg (by unfold defaultFuel; omega)
 
-/-! ### Full-strength statements that are *not* proved
+/-- **Consecutive numbering of inputs and latches.**  The returned map sends the constant to 0,
+the `i`-th input literal to `2(i+1)` and the `j`-th latch-state literal to `2(I+j+1)`; together
+with `renumber_order` (gate `i` is `2(I+L+1+i)`): inputs, then latches, then and-gates are numbered
+consecutively. -/
+theorem renumber_leaf_numbering (cfg : Config) (a : Aig) (fuel : Nat) (o : OrderedAig) (m : LitMap)
+    (h : renumber cfg a fuel = .ok (o, m)) :
+    m.get 0 = some 0 ∧
+    (∀ i (hi : i < a.inputs.length), m.get a.inputs[i] = some (2 * (i + 1))) ∧
+    (∀ j (hj : j < a.latches.length),
+      m.get a.latches[j].state = some (2 * (a.inputs.length + j + 1))) :=
+  renumber_leaf_codes h
 
-`renumber_errors` shows that an ill-formed graph never yields `Ok`; that the outcome is then an
-`Err` of the *matching kind* within the default fuel needs the mid-stack detection argument on the
-model's path (the path of stacked literals is eventually periodic, so `path[n] = path[n/2]` fires
-at depth ≤ 2·gates + 2).  This is covered by the `renumber` engine (model = implementation on
-every generated cyclic / dangling case, never `out-of-fuel`) and by the harness oracle, not by a
-theorem. -/
+/-- **Termination on every graph.**  With the default fuel (`2·gates + 3` stack entries) the model
+never runs out of fuel, cyclic and ill-formed graphs included: the mid-stack test
+`stack[n] = stack[n/2]` fires before the stack can hold more than `2·gates + 1` literals
+(`Flussab.Aig.midstack_bound`, `PathInv.length_le`). -/
+theorem renumberAig_never_out_of_fuel (cfg : Config) (a : Aig) : renumberAig cfg a ≠ .outOfFuel :=
+  renumber_total (Nat.le_refl _)
 
-/-- Not proved: with the default fuel an ill-founded root yields `LitNotDefined` or `FoundCycle`. -/
-def C12_renumber_errors_full : Prop :=
-  ∀ (cfg : Config) (a : Aig) (r v : Nat), (definedVars a).Nodup → r ∈ roots cfg a →
-    DepStar a (r / 2) v → (Undefined a v ∨ OnCycle a v) →
-    ∃ l, renumberAig cfg a = .error (.notDefined l) ∨ renumberAig cfg a = .error (.foundCycle l)
+/-- **The explicit-stack detection rule** (`stack.get(stack.len() / 2) == lit`), stand-alone: if
+the successor of a stacked literal is a function of its variable, at most `G` variables occur and
+the rule never fired, the stack holds at most `2G + 1` literals — so on an (eventually periodic)
+cyclic descent the rule fires at depth `≤ 2G + 2`. -/
+theorem midstack_cycle_check (L S : List Nat) (nxt : Nat → Nat → Prop)
+    (hdet : ∀ x x' y y', x / 2 = x' / 2 → nxt x y → nxt x' y' → y = y')
+    (hchain : ∀ i (h : i + 1 < L.length), nxt L[i] L[i + 1])
+    (hvars : ∀ i (_ : i + 1 < L.length) (h' : i < L.length), L[i] / 2 ∈ S)
+    (hnohit : ∀ n, 1 ≤ n → ∀ (h : n < L.length), L[n] ≠ L[n / 2]) :
+    L.length ≤ 2 * S.length + 1 :=
+  midstack_bound L S nxt hdet hchain hvars hnohit
+
+/-- … and it has no false positive on a repetition-free stack. -/
+theorem midstack_no_false_positive (L : List Nat) (hn : L.Nodup) (n : Nat) (h1 : 1 ≤ n)
+    (h : n < L.length) : L[n] ≠ L[n / 2] := by
+  intro he
+  have := (List.pairwise_iff_getElem.mp hn) (n / 2) n (by omega) h (by omega)
+  exact this he.symm
+
+/-- **Errors, part 3: the reported error is the corresponding one.**  `LitAlreadyDefined` is only
+reported when a variable is defined twice; otherwise `LitNotDefined l` names a literal whose
+variable has no definition and `FoundCycle l` a literal whose variable lies on a combinational
+cycle, in both cases reachable from a transferred root. -/
+theorem renumber_error_is_corresponding (cfg : Config) (a : Aig) (fuel : Nat) (e : Err)
+    (h : renumber cfg a fuel = .error e) :
+    (∃ l, e = .alreadyDefined l ∧ ¬ (definedVars a).Nodup) ∨
+    ((definedVars a).Nodup ∧ ∃ r ∈ roots cfg a,
+      ((∃ l, e = .notDefined l ∧ Undefined a (l / 2) ∧ DepStar a (r / 2) (l / 2)) ∨
+       (∃ l, e = .foundCycle l ∧ OnCycle a (l / 2) ∧ DepStar a (r / 2) (l / 2)))) :=
+  renumber_err_sound h
+
+/-- **Classification** of the outcome of `renumber_aig` (default fuel): doubly defined variable ⇒
+`LitAlreadyDefined`; else some transferred root not well-founded ⇒ `LitNotDefined` or `FoundCycle`;
+else `Ok`. -/
+theorem renumberAig_classification (cfg : Config) (a : Aig) :
+    (¬ (definedVars a).Nodup → ∃ l, renumberAig cfg a = .error (.alreadyDefined l)) ∧
+    ((definedVars a).Nodup → (∃ r ∈ roots cfg a, ¬ Grounded a (r / 2)) →
+      ∃ l, renumberAig cfg a = .error (.notDefined l) ∨ renumberAig cfg a = .error (.foundCycle l)) ∧
+    ((definedVars a).Nodup → (∀ r ∈ roots cfg a, Grounded a (r / 2)) →
+      ∃ o m, renumberAig cfg a = .ok (o, m)) :=
+  ⟨renumber_dup, fun hn hr => renumber_illfounded_error (Nat.le_refl _) hn hr,
+   fun hn hg => renumber_complete hn hg (by unfold defaultFuel; omega)⟩
+
+/-- An undefined literal or a combinational cycle below a transferred root yields
+`LitNotDefined` or `FoundCycle` (unless a doubly defined variable is reported first). -/
+theorem renumber_errors_kind (cfg : Config) (a : Aig) (r v : Nat) (hn : (definedVars a).Nodup)
+    (hr : r ∈ roots cfg a) (hd : DepStar a (r / 2) v) (hv : Undefined a v ∨ OnCycle a v) :
+    ∃ l, renumberAig cfg a = .error (.notDefined l) ∨ renumberAig cfg a = .error (.foundCycle l) := by
+  apply renumber_illfounded_error (Nat.le_refl _) hn
+  refine ⟨r, hr, fun hg => ?_⟩
+  have hgv : Grounded a v := by
+    rcases hd with rfl | hd
+    · exact hg
+    · exact hg.depPlus hn hd
+  rcases hv with hv | hv
+  · exact hgv.not_undefined hv
+  · exact hgv.not_onCycle hn hv
+
+/-- **Codes fit.**  The renumbered circuit has at most as many and-gates as the original, hence
+at most as many variables (`I + L + A' ≤ I + L + A`, and the old variables are distinct and
+non-zero): every new code is bounded by the largest old code, so it fits whatever literal type
+held the old codes. -/
+theorem renumber_codes_fit (cfg : Config) (a : Aig) (fuel : Nat) (o : OrderedAig) (m : LitMap)
+    (h : renumber cfg a fuel = .ok (o, m)) :
+    o.gates.length ≤ a.gates.length ∧
+    o.maxVarIndex ≤ a.inputs.length + a.latches.length + a.gates.length := by
+  have hg := renumber_gate_count h
+  have := (renumber_order cfg a fuel o m h).2.2.1
+  exact ⟨hg, by omega⟩
 
 /-! ### Non-vacuity -/
 
